@@ -9,6 +9,7 @@ import (
 	"runtime"
 	"sort"
 	"strings"
+	"time"
 
 	"github.com/relab/hotstuff"
 	"github.com/relab/hotstuff/core"
@@ -73,9 +74,12 @@ type run struct {
 	bytesID     map[int]string // block id -> bytes that a vote signs
 	fixedLeader int
 	lmode       string
-	fetchLog    [][2]any        // block fetches of the current step: [block id, answered]
+	fetchLog    [][2]any               // block fetches of the current step: [block id, answered]
 	fetchMemo   map[hotstuff.Hash]bool // one answer per block and step
 	forkCount   int
+	sinceTop    int
+	thin        bool        // client-pause scenario: clients keep only a few commands outstanding ...
+	paused      bool        // ... and stop sending altogether for a while
 	silentAfter hotstuff.ID // scenario: this replica falls silent once the others reach silentView
 	silentView  int
 }
@@ -312,6 +316,7 @@ func (r *run) step(kind string, n *hx.Node, ev obj, f func()) {
 	c0, v0, s0, e0, a0 := len(n.Commits), len(n.ViewChanges), len(n.Signed), len(n.Executed), len(n.Aborted)
 	o0 := len(n.Outcomes)
 	r.fetchLog, r.fetchMemo = [][2]any{}, nil
+	n.StarvedViews = nil
 	panicked := ""
 	func() {
 		defer func() {
@@ -333,7 +338,7 @@ func (r *run) step(kind string, n *hx.Node, ev obj, f func()) {
 	}
 	line := obj{"op": "step", "kind": kind, "node": int(n.ID), "ev": ev, "pre": pre, "post": r.proj(n), "commits": commits, "vcs": vcs,
 		"signed": r.classifySigned(n, s0), "out": out, "exec": n.Executed[e0:], "abort": n.Aborted[a0:], "panic": panicked, "healed": r.healed,
-		"fetch": r.fetchLog, "outcomes": n.Outcomes[o0:], "count": int(n.CIO.CmdCount()), "digest": fmt.Sprintf("%x", n.CIO.Hash().Sum(nil)[:6])}
+		"fetch": r.fetchLog, "starved": append([]int{}, n.StarvedViews...), "outcomes": n.Outcomes[o0:], "count": int(n.CIO.CmdCount()), "digest": fmt.Sprintf("%x", n.CIO.Hash().Sum(nil)[:6])}
 	line["new"] = r.newBlk
 	r.newBlk = nil
 	r.o.emit(line)
@@ -355,7 +360,32 @@ func (r *run) logByz(what string, by hotstuff.ID, msgs []envelope) {
 	r.newBlk = nil
 }
 
+// outstanding: client commands that are still ahead of what the replicas executed (per client: issued sequence numbers above
+// the highest one any honest replica executed; a skipped lower number will never run and does not count)
+func (r *run) outstanding() int {
+	high := map[int]int{}
+	for _, n := range r.honest() {
+		for _, e := range n.Executed {
+			high[int(e[0])] = max(high[int(e[0])], int(e[1]))
+		}
+	}
+	k := 0
+	for cl, issued := range r.nextCmd {
+		if cl != 9 {
+			k += issued - high[cl]
+		}
+	}
+	return k
+}
+
 func (r *run) topUp() {
+	// (thin clients keep a window of outstanding commands; a client whose commands sit in abandoned blocks gives up on them after a
+	// while and sends new ones)
+	r.sinceTop++
+	if r.paused || (r.thin && r.outstanding() >= 16 && r.sinceTop < 12) {
+		return
+	}
+	r.sinceTop = 0
 	// a new command of one of two clients goes to EVERY replica (overlapping command sets at different
 	// leaders); a leader is never starved
 	// (several per step: a replica may propose more than once while it runs to quiescence, and a proposer
@@ -660,8 +690,15 @@ func (r *run) coopMaybe() bool {
 				r.node(x).BC.Store(b)
 			}
 			var msgs []envelope
+			// (sometimes one replica is left out: it stays in this view without having voted while the others certify the block)
+			skip := hotstuff.ID(0)
+			if r.rng.Intn(3) == 0 {
+				skip = hon[r.rng.Intn(len(hon))].ID
+			}
 			for _, n := range hon {
-				msgs = append(msgs, envelope{from: lid, to: n.ID, msg: hotstuff.ProposeMsg{ID: lid, Block: b}})
+				if n.ID != skip {
+					msgs = append(msgs, envelope{from: lid, to: n.ID, msg: hotstuff.ProposeMsg{ID: lid, Block: b}})
+				}
 			}
 			// and it votes for its own block at the next leader
 			if pc, err := r.node(lid).Auth.CreatePartialCert(b); err == nil {
@@ -792,6 +829,27 @@ func (r *run) adversary() {
 					r.node(x).BC.Store(b)
 				}
 				return b
+			}
+			// first: a child of a CERTIFIED block whose view is not below the proposal's own, justified by that block's genuine
+			// signatures under a lower view label (the target lags: such blocks exist)
+			tried := 0
+			for k := len(r.qcPool) - 1; k >= 0 && tried < 3; k-- {
+				q := r.qcPool[k]
+				if q.Signature() == nil || q.View() < view {
+					continue
+				}
+				if _, known := r.blockID[q.BlockHash()]; !known {
+					continue
+				}
+				tried++
+				for _, label := range []hotstuff.View{view - 1, 0} {
+					i := mkb(q.BlockHash(), hotstuff.NewQuorumCert(q.Signature(), label, q.BlockHash()), view)
+					r.logByz("stale-child", id, []envelope{{from: id, to: tgt.ID, msg: hotstuff.ProposeMsg{ID: id, Block: i}}})
+					r.deliverIdx(len(r.net) - 1)
+				}
+				if tgt.VS.View() != view || tgt.Voter.VerifLastVotedView() >= view {
+					return
+				}
 			}
 			for shape := 0; shape < 15; shape++ {
 				f := mkb(old.BlockHash(), old, view-3)
@@ -1018,9 +1076,18 @@ func protoCmd(args []string) error {
 			}
 		}
 		lrOf := func(cfg *core.RuntimeConfig) leaderrotation.LeaderRotation { return scriptLR{n: n, script: &script} }
-		nodes, err := hx.NewNodes(hx.NodeOpts{N: n, Scheme: crypto.NameECDSA, Ruleset: rs, Leader: lrOf, BatchSize: 1})
+		batch := uint32(1)
+		if *only == "client-pause" {
+			batch = 2
+		}
+		nodes, err := hx.NewNodes(hx.NodeOpts{N: n, Scheme: crypto.NameECDSA, Ruleset: rs, Leader: lrOf, BatchSize: batch})
 		if err != nil {
 			return err
+		}
+		if *only == "client-pause" {
+			for _, x := range nodes {
+				x.Watchdog = 120 * time.Millisecond // a leader without commands waits until its view timer fires
+			}
 		}
 		r := &run{forkCount: ri, o: o, rng: rng, n: n, q: hotstuff.QuorumSize(n), nodes: nodes, byz: byz, lr: scriptLR{n: n, script: &script}, script: &script, fixedLeader: fixedLeader, lmode: lmode,
 			agg: rs == "fasthotstuff", blockID: map[hotstuff.Hash]int{hotstuff.GetGenesis().Hash(): 0},
@@ -1046,6 +1113,7 @@ func protoCmd(args []string) error {
 		}
 		o.emit(obj{"op": "init", "n": n, "f": f, "q": r.q, "rs": rs, "byz": byzList, "leaders": leaders, "lmode": lmode, "agg": r.agg,
 			"crashOnly": *noByz, "chain": nodes[0].Rules.ChainLength()})
+		r.thin = *only == "client-pause"
 		r.topUp()
 		for _, x := range r.honest() {
 			x := x
@@ -1257,14 +1325,44 @@ func (r *run) heal(views int, faultFree bool) {
 	}(), "view": startView})
 	budget := 400 * views // scheduler moves of the suffix
 	rounds := 0           // rounds in which the timers of M fired
-	for budget > 0 && rounds <= 30 {
+	pausedOnce, pauseRounds := false, 0
+	for budget > 0 && (rounds <= 30 || r.paused) {
 		budget--
+		if r.thin && !pausedOnce {
+			// client-pause scenario: once the quorum has made some progress the clients fall silent for a few view timers, then
+			// come back; progress must resume (the bound is counted from their return)
+			far := true
+			for id := range inM {
+				far = far && int(r.node(id).VS.View()) >= startView+5
+			}
+			if far {
+				pausedOnce, r.paused, pauseRounds = true, true, rounds
+				r.o.emit(obj{"op": "pause"})
+			}
+		}
+		starvedNow := 0
+		for id := range inM {
+			starvedNow += r.node(id).StarvedTotal
+		}
+		if r.paused && rounds >= pauseRounds+3 && starvedNow >= 2 {
+			r.paused = false
+			startView = r.maxHonestView()
+			rounds = 0
+			r.o.emit(obj{"op": "heal", "faultfree": false, "leaders": newLeaders, "members": func() []int {
+				var m []int
+				for id := range inM {
+					m = append(m, int(id))
+				}
+				sort.Ints(m)
+				return m
+			}(), "view": startView})
+		}
 		r.topUp()
 		done := true
 		for id := range inM {
 			done = done && int(r.node(id).VS.View()) >= startView+views
 		}
-		if done {
+		if done && (!r.thin || (pausedOnce && !r.paused)) { // (the client-pause scenario ends only after the clients have returned)
 			break
 		}
 		// deliver what is in flight among M first (one message per move); everything else is lost
@@ -1286,7 +1384,7 @@ func (r *run) heal(views int, faultFree bool) {
 		for id := range inM {
 			minView = min(minView, int(r.node(id).VS.View()))
 		}
-		if minView >= startView+views {
+		if minView >= startView+views && (!r.thin || (pausedOnce && !r.paused)) {
 			break
 		}
 		rounds++
